@@ -843,7 +843,18 @@ func c17registerTestEntries() *reg.Snapshot {
 	for _, t := range c17testTags {
 		ttlv.RegisterTag(t.name, t.num)
 	}
-	ttlv.RegisterEnum(c17tE, c17testEnum)
+	// registered in TWO calls for the same tag (an application extending an enumeration after the
+	// library registered it): the entries of the first call must stay readable by name
+	first, second := map[c17TE]string{}, map[c17TE]string{}
+	for v, n := range c17testEnum {
+		if v%2 == 0 {
+			first[v] = n
+		} else {
+			second[v] = n
+		}
+	}
+	ttlv.RegisterEnum(c17tE, first)
+	ttlv.RegisterEnum(c17tE, second)
 	full := make([]string, 32)
 	for i := range full {
 		full[i] = fmt.Sprintf("F%d", i)
